@@ -44,11 +44,11 @@ def run(tier, seed, pid=PID):
         rs.append((c, m, None))
     allscripts = scripts + rs
     recs = daemon.run_many(drv, [(c, m) for c, m, _ in allscripts], wd)
-    # C12: the limit is the task's own after a restart too.  The adds of a script go to a first daemon life, which saves the queue and
+    # the schedule (C04) and the limits (C12: the limit is the task's own) hold across a restart too.  The adds of a script go to a first daemon life, which saves the queue and
     # shuts down; a second life on the same spool loads the queue file and runs the rest of the script (one user, so that tasks with
     # and without a limit share a queue file)
     ntwo = 0
-    if pid == 'C12':
+    if pid in ('C12', 'C04'):
         import concurrent.futures as cf
         two = []
         for k in range(3000 if tier == 'thorough' else 400):
